@@ -73,7 +73,7 @@ def run(ctx):
     ctx.assumptions = ["keyword.kwlist of the running Python is the set of reserved words (passed to the spec as data); soft keywords (match, case, type, _) are legal identifiers and only used as inputs",
                        "ASCII identifiers only (protoc accepts nothing else)"]
     # (1) the design: C19 model-checked on the faithful casing model for every identifier up to a length bound
-    cfg = ("SPECIFICATION Spec\nCONSTANTS\n  Alpha = {97, 115, 105, 65, 83, 49, 95}\n  MaxLen = %d\n" % (6 if quick else 8) +
+    cfg = ("SPECIFICATION Spec\nCONSTANTS\n  Alpha = {97, 115, 105, 65, 83, 49, 95}\n  MaxLen = %d\n" % (6 if quick else 7) +
            "".join("INVARIANT %s\n" % i for i in MC_INVS) + "CHECK_DEADLOCK FALSE\n")
     ctx.mc("MC_Casing", cfg, name="MC_Casing", expect_actions=("Grow",), timeout=3000)
     # negative control: without the recorded finding the camelCase theorem must fail on the model (the invariants are not vacuous)
